@@ -3,9 +3,9 @@ package main
 import (
 	"fmt"
 	"go/token"
-	"sort"
 	"go/types"
 	"math"
+	"sort"
 	"strings"
 
 	"golang.org/x/tools/go/ssa"
@@ -423,15 +423,19 @@ func selectionTables(h H, rule string) {
 	}
 	// same key, same backend; the key is the documented request attribute
 	type keyed struct {
-		name  string
-		same  [][2]aval // pairs of requests that must be sent to the same backend
+		name   string
+		same   [][2]aval // pairs of requests that must be sent to the same backend
 		differ [][2]aval // pairs that the adversarial hash sends to different start slots (so the key really is used)
 		fields map[string]aval
 	}
 	if fn := get("(*IPHash).Select"); fn != nil {
 		t := reqT(fn, 2)
-		ip4 := func(port string) aval { return mkReq(t, strOf(atom{sym: "ip4"}, atom{lit: ":" + port}), astr("/"), nil) }
-		ip6 := func(port string) aval { return mkReq(t, strOf(atom{lit: "["}, atom{sym: "ip6"}, atom{lit: "]:" + port}), astr("/"), nil) }
+		ip4 := func(port string) aval {
+			return mkReq(t, strOf(atom{sym: "ip4"}, atom{lit: ":" + port}), astr("/"), nil)
+		}
+		ip6 := func(port string) aval {
+			return mkReq(t, strOf(atom{lit: "["}, atom{sym: "ip6"}, atom{lit: "]:" + port}), astr("/"), nil)
+		}
 		other := mkReq(t, strOf(atom{sym: "other"}, atom{lit: ":1000"}), astr("/"), nil)
 		bad, nrun := "", 0
 		for n := 2; n <= tb(3, 4) && bad == ""; n++ {
